@@ -102,6 +102,17 @@ def family():
     for order in ([ovi, ovf, ovv], [ovv, ovf, ovi], [ovf, ovi, ovv]):
         out.append((A.prog([], order + [ovu, entry([("n", INT)], INT, [A.decl("x", FLOAT, A.lit_f(5, 1)), A.decl("v", A.vec("float", 2), A.cons(A.vec("float", 2), [L(1), L(2)])),
                                                                        A.ret(B("+", B("+", C("ov", [V("n")]), B("*", C("ov", [V("x")]), L(3))), B("+", B("*", C("ov", [V("v")]), L(7)), C("ou", [V("n")]))))])]), ints(0, 5)))
+    # parameters without a name (written as a type only): arguments are still bound by position
+    pk = A.func("pick", [("unnamed_0", INT), ("b", INT)], INT, A.block([A.estmt(A.asg(V("b"), B("+", V("b"), L(1000)))), A.ret(V("b"))]))
+    pk3 = A.func("pick3", [("a", FLOAT), ("unnamed_1", INT), ("c", INT)], FLOAT, A.block([A.ret(B("+", B("*", V("a"), L(100)), V("c")))]))
+    out.append((A.prog([], [pk, pk3, entry([("n", INT)], FLOAT, [A.decl("x", INT, C("pick", [V("n"), B("+", V("n"), L(1))])),
+                                                                  A.ret(B("+", V("x"), C("pick3", [A.lit_f(3, 1), V("n"), B("+", V("n"), L(2))])))])]), ints(3, 7)))
+    # one function's local names are another function's parameter names (both definition orders): names are per function
+    a1 = A.func("a1", [("q", INT)], INT, A.block([A.decl("t", INT, B("*", V("q"), L(2))), A.decl("w", INT, B("+", V("t"), L(1))), A.ret(V("w"))]))
+    a2 = A.func("a2", [("t", INT), ("w", INT)], INT, A.block([A.estmt(A.asg(V("t"), B("+", V("t"), L(1)))), A.ret(B("+", B("*", V("t"), L(10)), V("w")))]))
+    for order in ([a1, a2], [a2, a1]):
+        out.append((A.prog([], order + [entry([("n", INT)], INT, [A.decl("t", INT, C("a1", [V("n")])), A.decl("w", INT, C("a2", [V("t"), V("n")])),
+                                                                  A.ret(B("+", B("+", V("w"), C("a1", [V("t")])), V("t")))])]), ints(1, 4)))
     # overloads that differ in the number of parameters: a call reaches the one whose parameter count matches
     sc1 = A.func("sc", [("a", INT)], FLOAT, A.block([A.ret(B("*", V("a"), L(10)))]))
     sc2 = A.func("sc", [("a", INT), ("k", FLOAT)], FLOAT, A.block([A.ret(B("*", V("a"), V("k")))]))
